@@ -300,7 +300,9 @@ def oracle(ctx):
     ctx.sample({'template': cases[0][0]['src'], 'expected': cases[0][1]})
     # named and numeric character references inside an expression are decoded before it is evaluated (D-06c, fixed: &xi; was not)
     ENT = [("'&xi;'", '\u03be'), ("'&Xi;'", '\u039e'), ("'&pi;'", '\u03c0'), ("'&#x41;'", 'A'), ("'&#65;'", 'A'), ("'&#x4A;'", 'J'), ("'&eacute;'", '\u00e9'),
-           ("'&x41;'", '&amp;x41;'), ("'&xyz;'", '&amp;xyz;'), ("'&nosuch;'", '&amp;nosuch;'), ("len('&lt;&gt;&amp;')", '3')]
+           ("'&x41;'", '&amp;x41;'), ("'&xyz;'", '&amp;xyz;'), ("'&nosuch;'", '&amp;nosuch;'), ("len('&lt;&gt;&amp;')", '3'),
+           # D-06d, fixed: &apos; (predefined in XML, missing from the HTML 4 table) was not decoded
+           ("len(&apos;ab&apos;)", '2'), ("&apos;a&apos; + &quot;b&quot; + &#39;c&#39;", 'abc')]
     for e, want in ENT:
         for src, exp in (('<p>${%s}</p>' % e, '<p>%s</p>' % want), ('<p a="${%s}">t</p>' % e, '<p a="%s">t</p>' % want)):
             ctx.count('evaluations')
